@@ -126,6 +126,15 @@ CHECKS['C12'] = dict(
     design_ref='DESIGN.md 4/C12',
     note='Trusted: MIR = code; xml-rs entry points are recording builtins. Outside (third-party, not encoded): escaping, well-formedness and indentation of the text xml-rs prints; name validity.',
     technique='symbolic execution of rustc MIR over symbolically chosen document skeletons; event-sequence equality (z3 for text) per path (bounded: depth, children, attributes)')
+CHECKS['C15'] = dict(
+    category='model_checking',
+    text='(1) The real json/yaml/toml importers run from MIR with the third-party decoder replaced by a stub returning a planted serde value tree whose node kinds are symbolic decisions (depth 1 quick / 2 thorough) and whose '
+         'numbers are symbolic in every representation (i64, u64, finite f64): z3 decides that the resulting Val is isomorphic — integers that fit i64 stay integers of equal value, every other number becomes a float of equal '
+         'value, strings/booleans/nulls identical, order and keys kept. (2) The real include hook through whole programs on the virtual file system: include str yields the file\'s (symbolic) bytes unchanged; b64 / b64urlsafe call '
+         'the standard / URL-safe engine on exactly those bytes; unknown include types, importer errors and missing files are build errors; the decoded value reaches the program.',
+    design_ref='DESIGN.md 4/C15',
+    note='Trusted: MIR = code; planted decoder results; base64 encode as an opaque piece. Outside (third-party, not encoded): the decoders themselves and base64; YAML anchors, merge keys, tags, non-string keys; empty files.',
+    technique='symbolic execution of rustc MIR over symbolically chosen serde value trees with symbolic numbers; z3 decides isomorphism and integer/float classification (bounded: depth, children)')
 NOT_APPLICABLE = {
 }
 ALL = ['C%02d' % i for i in range(1, 21)]
